@@ -11,6 +11,21 @@ CHECKS = {
  },
 }
 CHECKS.update({
+ 'C06': {
+  'text': 'Partial proof, per operator tier: Verus proves on the real analyzer functions that whenever a tier applied one of its operators the static kind it returns is Number (unary + - NOT; ^; * /; + -; the six comparisons; AND; OR - via a ghost operator counter, loop invariant and an assertion before the tail expression), and Kani proves on the real evaluator functions that the same operators always produce a number (or fail exactly on the operand kinds the analyzer rejects). Name-suffix kind rules of analyzer (ValueType::from_variable_name) and interpreter (Value::validate_type_matches_variable_name) are the same function of the last byte (Kani, bounded name length). The jump-target test is has(n) on both sides.',
+  'note': 'Operand parsing below the unary tier is an assumed contract; statement-level agreement is undecided. The disagreement this check found on the original tree (comparison/AND/OR/NOT returned the left operand kind) is repaired by a fix: commit and recorded in known_findings.json.',
+  'technique': 'Verus ghost-counter invariants on the analyzer tiers + Kani full-domain harnesses on the evaluator operators',
+ },
+ 'C08': {
+  'text': 'Partial proof of the suspend/resume mechanism: rewind_before_token(INPUT) lands on the nearest preceding INPUT token of the same line, strictly before the cursor, and changes nothing else (its panic! is discharged by the precondition that such a token exists); rewind_program_and_await_input then leaves the interpreter AwaitingInput; provide_input requires AwaitingInput, stores the reply and resumes Running, touching nothing else; coercion of a reply item: number into numeric name, text into numeric name => DATA TYPE MISMATCH (the REENTER path), $ name accepts both (Kani, bounded name length).',
+  'note': 'evaluate_input_statement and IF/ELSE interplay are outside both verifiers (undecided).',
+  'technique': 'Verus loop invariant + decreases on the rewind, typestate contracts; Kani harness on the coercion table',
+ },
+ 'C19': {
+  'text': 'Proof of the adapter-side obligations on the real JsInterpreter methods (wasm_bindgen attributes dropped): the two assert!s become preconditions, the panic! arm of get_state is unreachable under the invariant "the core is never left in NewInterpreterRequested between calls", which every method preserves; the error latch is set only after the core returned an error (and is then Idle), cleared by take_latest_error; get_state maps the four states faithfully; NEW yields Interpreter::default(). Three exec-form lemmas show that under the page protocol (which method is called in which observed state) every call meets its precondition from any reachable state.',
+  'note': 'The page script is TypeScript: its protocol is an assumption (transliterated). Core start_evaluating contract is assumed; to_string/extend/join are assumed total. The start-up loader defect is outside reach.',
+  'technique': 'Verus contracts + invariant on the Web adapter, exec-form protocol lemmas',
+ },
  'C05': {
   'text': 'Partial proof of the source map: add/add_empty keep the invariant "every registered BASIC line points at an existing file line"; every position map_location_to_source returns is one of the token ranges registered for exactly the file line the line-number map names; tokenization-error ranges satisfy start <= end <= line length and map to the diagnostic\'s own file line; no index can go out of bounds under the stated preconditions. SourceFileAnalyzer::run itself is outside both verifiers.',
   'note': 'Trusted: vstd HashMap/Vec specs, Range::clone is structural, derived Default of SourceLineRanges. The preconditions of map_to_source (file_line < number of lines; error index within the line) are obligations of run(), which is not verified.',
